@@ -408,6 +408,9 @@ def mon_C01(blocks):
     out = []
 
     def visit(b, g, ctx):
+        if b.tok[0] == "h" and b.ret == "panic" and not b.faulted:
+            out.append(Violation(b.idx, "%s on the client's session panicked (%s): the write is lost" % (b.line, b.msg)))
+            return
         if b.tok[0] != "req":
             return
         client, spec, ip, ua, create = req_fields(b)
@@ -973,6 +976,9 @@ def mon_C09(blocks):
             faulty = True
         if b.restart:
             faulty = False
+            continue
+        if b.ret == "panic" and k == "h" and b.tok[1] in MUTATORS and not b.faulted:
+            out.append(Violation(b.idx, "%s panicked instead of returning (%s)" % (b.line, b.msg)))
             continue
         if b.ret == "panic" or b.frozen is not None:
             continue
